@@ -1,11 +1,176 @@
-/- Driver ops for C19. -/
+/- Driver ops for C19 (layout regions). -/
 import Driver.Loop
+import Model.Layout
 
 open Lean Model
 
 namespace Driver.C19
 
-def ops : List (String × Op) := []
+def getR2 (j : Json) : Except String R2 := do
+  match (← getInts j) with
+  | [a, b, c, d] => pure ⟨a, b, c, d⟩
+  | _ => throw "expected 4 ints"
+
+def getR1 (j : Json) : Except String R1 := do
+  match (← getInts j) with
+  | [a, b] => pure ⟨a, b⟩
+  | _ => throw "expected 2 ints"
+
+def getIntPair (j : Json) : Except String (Int × Int) := do
+  match (← getInts j) with
+  | [a, b] => pure (a, b)
+  | _ => throw "expected 2 ints"
+
+def r2ToJson (r : R2) : Json := intsToJson [r.y0, r.y1, r.x0, r.x1]
+def r1ToJson (r : R1) : Json := intsToJson [r.x0, r.x1]
+
+def getCorner (j : Json) : Except String Corner := do
+  match (← getInts j) with
+  | [1, 0] => pure .c10
+  | [0, 0] => pure .c00
+  | [1, 1] => pure .c11
+  | [0, 1] => pure .c01
+  | _ => throw "bad_corner"
+
+def optR2 (o : Option R2) : Except String Json :=
+  match o with
+  | some r => pure (r2ToJson r)
+  | none => throw "bad_region"
+
+def optR1 (o : Option R1) : Except String Json :=
+  match o with
+  | some r => pure (r1ToJson r)
+  | none => throw "bad_region"
+
+def regionNew : Op := fun j => do
+  let dim ← getNat (← field j "dim")
+  if dim = 1 then optR1 (Impl.region1dNew (← getR1 (← field j "region")))
+  else optR2 (Impl.region2dNew (← getR2 (← field j "region")))
+
+def rotateArray : Op := fun j => do
+  let rows ← getRatMat (← field j "rows")
+  let c ← getCorner (← field j "corner")
+  pure (ratMatToJson (Impl.rotateArray c rows))
+
+def rotateRegion : Op := fun j => do
+  let r ← getR2 (← field j "region")
+  let c ← getCorner (← field j "corner")
+  let (h, w) ← match (← getNats (← field j "shape")) with
+    | [h, w] => pure (h, w)
+    | _ => throw "bad shape"
+  optR2 (Impl.rotateRegion r h w c)
+
+/-- everything clause (a) talks about, from the model: the rotated region, the slice it cuts from the
+    rotated array, the rotated content of the original slice, and the double rotations. -/
+def rotateSlice : Op := fun j => do
+  let rows ← getRatMat (← field j "rows")
+  let r ← getR2 (← field j "region")
+  let c ← getCorner (← field j "corner")
+  let h := rows.length
+  let w := (rows.head?.getD []).length
+  match Impl.region2dNew r with
+  | none => throw "bad_region"
+  | some r =>
+  match Impl.rotateRegion r h w c with
+  | none => throw "bad_region"
+  | some r' =>
+    let ra := Impl.rotateArray c rows
+    let back ← match Impl.rotateRegion r' h w c with
+      | some b => pure (r2ToJson b)
+      | none => throw "bad_region"
+    pure (obj [("rotated_region", r2ToJson r'), ("rotated_array", ratMatToJson ra),
+               ("slice_of_rotated", ratMatToJson (Impl.slice2d r' ra)),
+               ("slice", ratMatToJson (Impl.slice2d r rows)),
+               ("twice_array", ratMatToJson (Impl.rotateArray c ra)),
+               ("twice_region", back)])
+
+def x0x1 : Op := fun j => do
+  match (← getInts (← field j "args")) with
+  | [a, b, c, d] =>
+    match Impl.x0x1AfterExtraction a b c d with
+    | some (p, q) => pure (intsToJson [p, q])
+    | none => pure Json.null
+  | _ => throw "expected 4 ints"
+
+def afterExtraction : Op := fun j => do
+  let o ← getR2 (← field j "orig")
+  let e ← getR2 (← field j "window")
+  match Impl.regionAfterExtraction o e with
+  | .value r => pure (r2ToJson r)
+  | .absent => pure Json.null
+  | .raised => throw "bad_region"
+
+/-- region after extraction together with what it addresses inside the extracted window -/
+def extractSlice : Op := fun j => do
+  let rows ← getRatMat (← field j "rows")
+  let o ← getR2 (← field j "orig")
+  let e ← getR2 (← field j "window")
+  let win := Impl.slice2d e rows
+  match Impl.regionAfterExtraction o e with
+  | .value r => pure (obj [("region", r2ToJson r), ("content", ratMatToJson (Impl.slice2d r win))])
+  | .absent => pure (obj [("region", Json.null), ("content", Json.null)])
+  | .raised => throw "bad_region"
+
+def getPixels (j : Json) (total : Int) : Except String (Int × Int) := do
+  let px ← match fieldD j "pixels" Json.null with
+    | Json.null => pure none
+    | p => do pure (some (← getIntPair p))
+  let fe ← match fieldD j "from_end" Json.null with
+    | Json.null => pure none
+    | p => do pure (some (← getInt p))
+  match Impl.frontPixels total px fe with
+  | some p => pure p
+  | none => throw "TypeError"
+
+def subRegion : Op := fun j => do
+  let kind ← getStr (← field j "kind")
+  match kind with
+  | "front1d" =>
+    let r ← getR1 (← field j "region")
+    optR1 (Impl.front1d r (← getPixels j r.totalPixels))
+  | "trailing1d" =>
+    let r ← getR1 (← field j "region")
+    optR1 (Impl.trailing1d r (← getIntPair (← field j "pixels")))
+  | "parallel_front" =>
+    let r ← getR2 (← field j "region")
+    optR2 (Impl.parallelFront r (← getPixels j r.totalRows))
+  | "parallel_trailing" =>
+    let r ← getR2 (← field j "region")
+    optR2 (Impl.parallelTrailing r (← getIntPair (← field j "pixels")))
+  | "serial_front" =>
+    let r ← getR2 (← field j "region")
+    optR2 (Impl.serialFront r (← getPixels j r.totalColumns))
+  | "serial_trailing" =>
+    let r ← getR2 (← field j "region")
+    optR2 (Impl.serialTrailing r (← getIntPair (← field j "pixels")))
+  | "parallel_full" =>
+    let r ← getR2 (← field j "region")
+    let (_, w) ← getIntPair (← field j "shape")
+    optR2 (Impl.parallelFull r w)
+  | "serial_towards_roe_full" =>
+    let r ← getR2 (← field j "region")
+    let (h, _) ← getIntPair (← field j "shape")
+    optR2 (Impl.serialTowardsRoeFull r h (← getIntPair (← field j "pixels")))
+  | "serial_x_front_range" =>
+    let r ← getR2 (← field j "region")
+    let x := Impl.serialXFrontRange r (← getIntPair (← field j "pixels"))
+    pure (intsToJson [x.1, x.2])
+  | _ => throw "bad_kind"
+
+def slice : Op := fun j => do
+  let dim ← getNat (← field j "dim")
+  if dim = 1 then
+    let r ← getR1 (← field j "region")
+    pure (ratsToJson (Impl.slice1d r (← getRats (← field j "values"))))
+  else
+    let r ← getR2 (← field j "region")
+    pure (ratMatToJson (Impl.slice2d r (← getRatMat (← field j "rows"))))
+
+def ops : List (String × Op) :=
+  [("c19.region_new", regionNew), ("c19.rotate_array", rotateArray),
+   ("c19.rotate_region", rotateRegion), ("c19.rotate_slice", rotateSlice),
+   ("c19.x0x1", x0x1), ("c19.after_extraction", afterExtraction),
+   ("c19.extract_slice", extractSlice), ("c19.sub_region", subRegion), ("c19.slice", slice)]
 
 end Driver.C19
 
